@@ -1,5 +1,14 @@
 /-
   C13 — VACUUM frees space without changing what anyone can see.
+
+  The machine: `Model/Db.lean` (version chains, snapshots as `TransactionCoordinator::snapshot` computes them) extended by
+  `Model/Vacuum.lean`: `State.vacuum` (abort all active transactions, drop versions of aborted creators, rows deleted by
+  committed deleters, delete marks of rolled-back deleters, versions below the horizon; forget old transactions) and
+  `State.quiesce` (the same without the physical part = what reopen does).  A history is a list of `VOp`
+  (`op o` = any operation of the C04 machine, `vacuum`, `reopen`); `vrun D V cat ops` = its outputs.
+  All property theorems are for `Defects.none`, `VDefects.none` and hold for EVERY history: any number of sessions,
+  statements, tables, VACUUMs and reopens at any position.  The proofs rest on `Lemmas/Vacuum.lean`: VACUUM and reopen
+  preserve the simulation relation `Rel` between the MVCC machine and the abstract snapshot-isolation machine of C04.
 -/
 import AxVerif.Lemmas.Vacuum
 namespace AxVerif.Db.C13
@@ -54,5 +63,117 @@ theorem vacuumDropsHorizonVersion_witness :
       (pre ++ [.op (.begin "s1"), .op (.exec "s1" (.upd "t" "v" false (.int 77) (kEq 1))), .op (.rollback "s1"), .vacuum,
                .op (.auto (.sel "t" none))]) := by
   decide
+
+
+/-! ## property theorems -/
+
+/-- the state reached by a history with VACUUM and reopen -/
+def reached (cat : Catalog) (ops : List VOp) : State := (vfinal Defects.none VDefects.none (VState.init cat) ops).db
+
+/-- **Refinement.**  On every history with VACUUM and reopen at arbitrary places, the MVCC machine with VACUUM's physical
+    effect answers every operation exactly as the abstract snapshot-isolation machine, in which a VACUUM does nothing but
+    end the open transactions (`Spec.State.quiesce`).  In particular every read issued after a VACUUM — by an autocommit
+    statement, by a session opened after it, by a session opened after several more VACUUMs and reopens — returns
+    committed-at-its-begin ⊕ its own writes. -/
+theorem vacuum_refines_spec (cat : Catalog) (ops : List VOp) :
+    vrun Defects.none VDefects.none cat ops = (Spec.vouts (Spec.State.init cat) ops).map VOut.out :=
+  (vrunFrom_ok ops _ _ (vinit_rel cat)).1
+
+/-- replaces every VACUUM by "abort every open transaction" (`reopen` = `State.quiesce`: no physical change at all) -/
+def noVacuum : VOp → VOp
+  | .vacuum => .reopen
+  | o => o
+
+theorem spec_vouts_noVacuum : ∀ (ops : List VOp) (α : Spec.State), Spec.vouts α (ops.map noVacuum) = Spec.vouts α ops
+  | [], _ => rfl
+  | o :: os, α => by
+    cases o <;> simp [Spec.vouts, Spec.vstep, noVacuum, spec_vouts_noVacuum os]
+
+/-- **VACUUM changes no answer.**  For every history — whatever happened before the VACUUMs (committed, rolled-back,
+    superseded versions, rolled-back deletes, transactions still open), wherever they stand, however many there are, with
+    or without reopens — every operation gets the same answer as in the history in which each VACUUM is replaced by the
+    mere rollback of the open transactions: all later reads of autocommit statements and of sessions begun after a
+    VACUUM, all outcomes of later writes and commits. -/
+theorem vacuum_view_preserving (cat : Catalog) (ops : List VOp) :
+    vrun Defects.none VDefects.none cat ops = vrun Defects.none VDefects.none cat (ops.map noVacuum) := by
+  rw [vacuum_refines_spec, vacuum_refines_spec, spec_vouts_noVacuum]
+
+example : [VOp.op (.begin "s1"), .vacuum, .op (.auto (.sel "t" none)), .reopen].map noVacuum =
+    [.op (.begin "s1"), .reopen, .op (.auto (.sel "t" none)), .reopen] := rfl
+
+/-- the same at the level of states: in every reachable state, the snapshot of a transaction that begins right after the
+    VACUUM reads from the vacuumed store exactly what a transaction beginning now reads from the present store, for every
+    table at once (`view` = all rows of all tables the snapshot selects, with their values) -/
+theorem vacuum_preserves_committed_view (cat : Catalog) (ops : List VOp) :
+    view Defects.none (((reached cat ops).vacuum Defects.none VDefects.none).freshSnap Defects.none)
+        ((reached cat ops).vacuum Defects.none VDefects.none).rows =
+      view Defects.none ((reached cat ops).freshSnap Defects.none) (reached cat ops).rows := by
+  have hr := (vreach_rel cat ops).1
+  have h1 := (vacuum_rel _ _ hr).core.committed
+  have h2 := hr.core.committed
+  exact h1.trans h2.symm
+
+/-- … and so does the snapshot of a transaction that begins after a reopen -/
+theorem reopen_preserves_committed_view (cat : Catalog) (ops : List VOp) :
+    view Defects.none (((reached cat ops).quiesce Defects.none).freshSnap Defects.none)
+        ((reached cat ops).quiesce Defects.none).rows =
+      view Defects.none ((reached cat ops).freshSnap Defects.none) (reached cat ops).rows := by
+  have hr := (vreach_rel cat ops).1
+  exact ((quiesce_rel _ _ hr).core.committed).trans hr.core.committed.symm
+
+/-- **Sessions opened after a VACUUM read consistently.**  A session begun after the VACUUM that issues the same query
+    twice, with anything in between except its own writes and transaction control — other sessions' writes and commits,
+    autocommit statements, further VACUUMs excluded only because they end the session — gets the same rows.
+    (This is `C04.repeatable` on the abstract machine, which `vacuum_refines_spec` makes applicable after any VACUUM.) -/
+theorem vacuum_keeps_later_sessions_consistent (cat : Catalog) (pre : List VOp) (mid : List Op) (s t : String) (p : Option Pred)
+    (hmid : ∀ op ∈ mid, op.keeps s = true) :
+    let ops := pre ++ [.vacuum, .op (.begin s), .op (.exec s (.sel t p))] ++ mid.map VOp.op ++ [.op (.exec s (.sel t p))]
+    (vrun Defects.none VDefects.none cat ops)[pre.length + 2]? = (vrun Defects.none VDefects.none cat ops)[pre.length + 3 + mid.length]? := by
+  intro ops
+  rw [vacuum_refines_spec]
+  simp only [List.getElem?_map]
+  congr 1
+  -- on the abstract machine
+  have key : ∀ (α : Spec.State) (ms : List Op), Spec.vouts α (ms.map VOp.op) = Spec.outs α ms ∧
+      Spec.vfinal α (ms.map VOp.op) = Spec.final α ms := by
+    intro α ms
+    induction ms generalizing α with
+    | nil => exact ⟨rfl, rfl⟩
+    | cons m ms ih =>
+      simp only [List.map_cons, Spec.vouts, Spec.vfinal, Spec.outs, Spec.final, Spec.vstep]
+      exact ⟨by rw [(ih _).1], (ih _).2⟩
+  have vouts_append : ∀ (a b : List VOp) (α : Spec.State),
+      Spec.vouts α (a ++ b) = Spec.vouts α a ++ Spec.vouts (Spec.vfinal α a) b := by
+    intro a
+    induction a with
+    | nil => intro b α; rfl
+    | cons x xs ih => intro b α; simp [Spec.vouts, Spec.vfinal, ih]
+  have vouts_length : ∀ (a : List VOp) (α : Spec.State), (Spec.vouts α a).length = a.length := by
+    intro a
+    induction a with
+    | nil => intro α; rfl
+    | cons x xs ih => intro α; simp [Spec.vouts, ih]
+  -- split the history: pre ++ [vacuum] | begin ; read ; mid ; read
+  let α0 := Spec.vfinal (Spec.State.init cat) (pre ++ [.vacuum])
+  have hsplit : ops = (pre ++ [.vacuum]) ++ ([Op.begin s, Op.exec s (.sel t p)] ++ mid ++ [Op.exec s (.sel t p)]).map VOp.op := by
+    simp [ops]
+  rw [hsplit, vouts_append, (key _ _).1]
+  have hl : (Spec.vouts (Spec.State.init cat) (pre ++ [VOp.vacuum])).length = pre.length + 1 := by
+    rw [vouts_length]; simp
+  rw [List.getElem?_append_right (by omega), List.getElem?_append_right (by omega), hl]
+  have e1 : pre.length + 2 - (pre.length + 1) = 1 := by omega
+  have e2 : pre.length + 3 + mid.length - (pre.length + 1) = 2 + mid.length := by omega
+  rw [e1, e2]
+  -- repeatable read on the abstract machine
+  obtain ⟨o, hrep1, hrep2⟩ := spec_repeatable (Spec.final α0 [Op.begin s]) [] mid s t p hmid
+  simp only [List.nil_append, List.length_nil, Nat.zero_add] at hrep1 hrep2
+  have hcons : Spec.outs α0 ([Op.begin s, Op.exec s (.sel t p)] ++ mid ++ [Op.exec s (.sel t p)]) =
+      (Spec.step α0 (.begin s)).2 :: Spec.outs (Spec.final α0 [Op.begin s]) (Op.exec s (.sel t p) :: (mid ++ [Op.exec s (.sel t p)])) := by
+    simp [Spec.outs, Spec.final]
+  show (Spec.outs α0 ([Op.begin s, Op.exec s (.sel t p)] ++ mid ++ [Op.exec s (.sel t p)]))[1]? =
+    (Spec.outs α0 ([Op.begin s, Op.exec s (.sel t p)] ++ mid ++ [Op.exec s (.sel t p)]))[2 + mid.length]?
+  rw [hcons]
+  have e3 : 2 + mid.length = (1 + mid.length) + 1 := by omega
+  rw [e3, List.getElem?_cons_succ, List.getElem?_cons_succ, hrep1, hrep2]
 
 end AxVerif.Db.C13
